@@ -301,7 +301,7 @@ static void send_shutdown_response(const struct peer *p,
 	}
 }
 
-static void clear_routing_entry(struct value_route_table *val)
+static void clear_routing_entry(struct value_route_table *val, const struct peer *leaving_peer)
 {
 	struct routing_request *request = val->vals[0];
 
@@ -309,7 +309,10 @@ static void clear_routing_entry(struct value_route_table *val)
 		log_peer_err(request->requesting_peer, "Could not cancel request timer when clearing routing entry!\n");
 	}
 
-	send_shutdown_response(request->requesting_peer, request->origin_request_id);
+	/* The requests of the leaving peer itself are just dropped. Its transport might be gone already. */
+	if (request->requesting_peer != leaving_peer) {
+		send_shutdown_response(request->requesting_peer, request->origin_request_id);
+	}
 	cJSON_Delete(request->origin_request_id);
 	cjet_free(request);
 }
@@ -326,7 +329,7 @@ void remove_peer_from_routing_table(const struct peer *p,
 			if (ret == HASHTABLE_SUCCESS) {
 				struct routing_request *request = val.vals[0];
 				if (likely(request->requesting_peer == peer_to_remove)) {
-					clear_routing_entry(&val);
+					clear_routing_entry(&val, peer_to_remove);
 				}
 			}
 		}
@@ -343,7 +346,7 @@ void remove_routing_info_from_peer(const struct peer *p)
 			int ret = HASHTABLE_REMOVE(route_table,
 			                           p->routing_table, entry->key, &val);
 			if (ret == HASHTABLE_SUCCESS) {
-				clear_routing_entry(&val);
+				clear_routing_entry(&val, p);
 			}
 		}
 	}
